@@ -149,7 +149,7 @@ theorem decValue_fails_marker_only_list :
 theorem decValue_fails_empty_stream :
     valueWF (.stream []) = true ∧ isEmptyStream (.stream []) = true ∧
     loadTyped Fix.code true [] (typeByte (.stream [])) none (encString [107] ++ encValue (.stream [])) =
-      .ok ([107], []) [] [1, 25] := by
+      .ok ([107], []) [] [1, 25, 26, 1, 3, 0] := by
   refine ⟨by decide, by decide, by decide⟩
 
 /-! ### (4) the whole snapshot -/
@@ -246,7 +246,7 @@ theorem snapshot_roundtrip_fails_empty_stream :
     decSnapshot Fix.code (encSnapshot [48, 46, 49, 46, 48] [(3, [⟨[115], .stream [], none⟩])] 1000) 2000 = .ok [] := by
   refine ⟨by decide, by decide, ?_⟩
   have h : decSnapshotT Fix.code (encSnapshot [48, 46, 49, 46, 48] [(3, [⟨[115], .stream [], none⟩])] 1000) 2000 =
-      .ok [] [] [9, 5, 5, 1, 1, 25] := by decide
+      .ok [] [] [9, 5, 5, 1, 1, 25, 26, 1, 3, 0] := by decide
   unfold decSnapshot
   rw [h]
 
